@@ -78,7 +78,8 @@ def exec_cases(ctx, cases, mode):
     jb = ctx.build("jpath")
     trace = os.path.join(ctx.scratch, "trace_%s_%d.ndjson" % (mode, ctx._n))
     with open(cases, "rb") as fi, open(trace, "wb") as fo:
-        p = ctx.run([jb, "exec", "-set", mode], stdin=fi, stdout=fo, check=False, timeout=3000)
+        p = ctx.run([jb, "exec", "-set", mode] + (["-multi-thin", "8" if ctx.quick else "3"] if mode == "c11" else []),
+                    stdin=fi, stdout=fo, check=False, timeout=3000)
     if p.returncode == 3:
         msg = p.stderr.decode(errors="replace")
         line = [l for l in msg.splitlines() if l.startswith("HANG ")]
